@@ -377,7 +377,10 @@ Definition c03_sweep_one (n : Z) : list Z :=
   ++ enc_vres (v_from_hex (fmt_base 16 u)) ++ o ++ o.
 Fixpoint c03_sweep_from (k : nat) (lo : Z) : list Z :=
   match k with O => [] | S k' => c03_sweep_one lo ++ c03_sweep_from k' (lo + 1) end.
-Definition c03_sweep (lo n : Z) : list Z := c03_sweep_from (Z.to_nat n) lo.
+(* the (long) result list is compared through its length and a polynomial hash *)
+Definition digest (l : list Z) : list Z :=
+  [zlen l; fold_left (fun h x => (h * 1000003 + x + 1) mod 2305843009213693951) l 0].
+Definition c03_sweep (lo n : Z) : list Z := digest (c03_sweep_from (Z.to_nat n) lo).
 
 (* harness entry point of C06: the six relational operators on one pair (harness/C06.py) *)
 Definition c06_all (x y : value) : list Z :=
